@@ -44,7 +44,7 @@ MANIFEST = {
 
 ULIMIT_KB = 2000000
 # further theorem files of C16 (each one re-checked and audited like C16Theorems.v)
-EXTRA_THEOREM_FILES = ["C16TheoremsParse.v", "C16TheoremsAux.v", "C16TheoremsConfRec.v"]
+EXTRA_THEOREM_FILES = ["C16TheoremsParse.v", "C16TheoremsAux.v", "C16TheoremsConfRec.v", "C16TheoremsHevc.v"]
 
 
 def build(ctx):
@@ -87,6 +87,7 @@ def run(ctx):
     lines = cases.splitlines()
     res = common.run_model(model, cases)
     mism = [l for l in res if not l.startswith("OK ")]
+    outside = sum(1 for l in res if l.endswith(" outside-model"))
     distinct = len(set(l.split("\t", 2)[2] for l in lines if "\t" in l))
     classes = {}
     for l in lines:
@@ -97,6 +98,7 @@ def run(ctx):
     ctx.cov["distinct_nontrivial"] += distinct
     ctx.notes["correspondence"] = {
         "cases": len(lines), "mismatches": len(mism), "distinct_cases": distinct, "classes": classes,
+        "outside_model": outside,  # HEVC cases whose PPS selects the multilayer / 3D extension (not modelled): not compared
         "distribution": "stage 2/3 (avc SPS/PPS/slice/GetSliceType/ParsePSAndSlice pipeline, avc+hevc ParseSEINalu, ExtractSEIData, 8 SEI decoders, "
                         "ADTS, ASC, 7 Annex B helpers): the search generators (captured seeds, every prefix of a seed, mutants, field soups with "
                         "hostile ue(v), structured pipelines, raw short inputs), n/20 per target; reference parameter sets sent in CTX lines and "
